@@ -10,13 +10,14 @@ the same shared store:
 
 * `gen_ops_interleaving_deterministic` — any number of regenerated runs (`Slice`, `Select`, `Drop`, `Copy` with their guard
   chains, the work of `setColumn`, `Sort`, `Distinct`, the functions of internal/index and `grouper.Distinct`, the built-in
-  `ToUpper` of string and enum columns, `ecolumn.Subset`, the loops of `Apply1` / `Apply2` / `apply0`), under EVERY schedule: the shared store is never written, every
+  `ToUpper` of string and enum columns, `ecolumn.Subset`, the loops of `Apply1` / `Apply2` / `apply0`, and — through the
+  static check `writesOnlyFresh` of their terms, sound against their value-semantics interpreters (C01FreshCL, C01FreshGL) —
+  `Filter`, `GroupBy`, the table of `Distinct`, `Aggregate`, `FilteredApply` / `WithRowNums`: ALL public operations), under EVERY schedule: the shared store is never written, every
   write event targets an array the writing thread allocated itself (no thread writes an array another thread can reach: the
   others reach only the shared arrays and their own), and each thread is where it is after the same number of its own steps
   run alone.
-* `ops_interleaving_deterministic_partial` — the same for any mixture of regenerated runs and hand models. The operations
-  that still enter through their hand model: `Filter` (`Op.filter`), `GroupBy` (`Op.groupBy`), the table of `Distinct`
-  (`Op.distinct`), `Aggregate` (`Op.aggregate`).
+* `ops_interleaving_deterministic_partial` — (kept) the same for any mixture of regenerated runs and hand models; no
+  operation needs its hand model any more (`GRun.filter`, `.groupBy`, `.distinctTable`, `.aggregate`, `.fapply`).
 * `witness_*_thread`: a thread running `setColumn` with `append` onto the shared column list, `Sort` sorting the receiver's
   index in place, or the enum `toUpper` with `newData := s.data[:0]` is not admitted (its program is not `OwnWrites`), and
   under a schedule it writes the shared store.
@@ -28,8 +29,9 @@ set_option linter.unusedVariables false
 namespace QF.Props.C11GenOps
 open H QF QF.Props.C01 QF.Props.C01GenOps QF.Props.C08ProjectGen
 
-/-- **C11 from the regenerated code.** Threads = runs of today's regenerated operations, each with its own heap,
-directory, receiver and arguments; `sh` the shared store (`base` arrays); `σ` any schedule. -/
+/-- **C11 from the regenerated code — FULL: every public operation is a constructor of `GRun`.** Threads = runs of today's
+regenerated operations, each with its own heap, directory, receiver and arguments; `sh` the shared store (`base` arrays);
+`σ` any schedule. -/
 theorem gen_ops_interleaving_deterministic (C : Enc) (base : Nat) (σ : List Nat) (sh : Store) (runs : List GRun) :
     let ts : List (Thread Unit) := runs.map (fun r => { prog := r.prog C })
     (runSched base σ sh ts).fst = sh ∧
@@ -42,8 +44,8 @@ theorem gen_ops_interleaving_deterministic (C : Enc) (base : Nat) (σ : List Nat
   obtain ⟨r, _, rfl⟩ := List.mem_map.mp ht
   exact gen_run_own_writes C r base
 
-/- FULL STATEMENT (not proved): the threads are runs of the regenerated code of ALL public operations.
-   Proved: threads are regenerated runs (`AnyOp.gen`, the families listed above) or hand models (`AnyOp.hand`): `Filter`,
+/- (kept; the FULL statement — the threads are runs of the regenerated code of ALL public operations — is now
+   `gen_ops_interleaving_deterministic` above.) Formerly: threads are regenerated runs (`AnyOp.gen`, the families listed above) or hand models (`AnyOp.hand`): `Filter`,
    `GroupBy`, the table of `Distinct`, `Aggregate` still enter through `Op.filter`, `Op.groupBy`, `Op.distinct`,
    `Op.aggregate` of C01Ops. -/
 theorem ops_interleaving_deterministic_partial (C : Enc) (base : Nat) (σ : List Nat) (sh : Store) (ops : List AnyOp) :
@@ -78,11 +80,34 @@ example : ((runSched 3 exSched exStore ((exThreads.take 3).map fun r => ({ prog 
      (1, .write 3), (2, .write 3)] := by
   decide +kernel
 
+/-- `Filter`, `GroupBy` and the table of `Distinct` of today's source as threads on the same receiver, next to `Sort` -/
+def exThreads2 : List GRun :=
+  [.filter CL.LeafCalls.ofLeaf exLeafClause { index := [2, 0, 1] } 0 1, .groupBy 64 [C01FreshGL.exCmp] [2, 0, 1] 0 1,
+   .op exSort exH exDir, .distinctTable 64 [C01FreshGL.exCmp] [2, 0, 1] 0 1]
+
+example : (runSched 3 exSched exStore (exThreads2.map fun r => ({ prog := r.prog exEnc } : Thread Unit))).fst = exStore :=
+  (gen_ops_interleaving_deterministic exEnc 3 exSched exStore exThreads2).1
+
+/-- by evaluation: `Filter` (thread 0) writes its mask and its result index, `GroupBy` (thread 1) its two groups and the group
+list, all private (ids ≥ 3) -/
+example : ((runSched 3 [0, 1, 0, 1, 0, 1, 0, 1, 0, 1, 0, 1, 1, 1, 1] exStore ((exThreads2.take 2).map fun r => ({ prog := r.prog exEnc } : Thread Unit))).snd.snd.filter
+      fun e => match e.2 with | .write _ => true | _ => false) =
+    [(0, .write 3), (1, .write 3), (0, .write 4), (1, .write 4), (1, .write 5)] := by
+  decide +kernel
+
 /-! ## Witnesses: the mutated operations as threads -/
 
 /-- the events of a schedule that write the shared region -/
 def sharedWrites (base : Nat) (evs : List (Nat × Ev)) : List (Nat × Ev) :=
   evs.filter fun e => match e.2 with | .write id => decide (id < base) | _ => false
+
+/-- a Filter that compacts into the receiver's index, as a thread: not admitted, and it writes the shared index (store id 0) -/
+theorem witness_filter_in_place_thread :
+    ¬ (filterEff ((CL.FnId.leaves, C01FreshCL.leavesInPlace) :: Gen.clauseFns) CL.LeafCalls.ofLeaf exLeafClause { index := [2, 0, 1] } 0 1).prog.OwnWrites 3 ∧
+    sharedWrites 3 (runSched 3 [0, 1, 0, 1, 0, 1, 0, 1, 0, 1, 0, 1, 1, 1] exStore
+      [{ prog := (filterEff ((CL.FnId.leaves, C01FreshCL.leavesInPlace) :: Gen.clauseFns) CL.LeafCalls.ofLeaf exLeafClause { index := [2, 0, 1] } 0 1).prog },
+       { prog := exSort.prog exEnc exDir exH }]).snd.snd = [(0, .write 0)] :=
+  ⟨(witness_filter_in_place _ _ _ 0 1 3 (by decide)).2, by decide +kernel⟩
 
 /-- `setColumn` with `append(qf.columns, …)` next to today's `Select`, on a column list with spare capacity: not admitted,
 and thread 0 writes the shared column list (store id 1) -/
@@ -115,6 +140,7 @@ theorem witness_eupper_reuse_data_thread :
 
 #print axioms gen_ops_interleaving_deterministic
 #print axioms ops_interleaving_deterministic_partial
+#print axioms witness_filter_in_place_thread
 #print axioms witness_setColumn_append_thread
 #print axioms witness_sort_in_place_thread
 #print axioms witness_eupper_reuse_data_thread
